@@ -44,6 +44,7 @@ type Gen struct {
 	retSites  []retSite
 	top       *frame
 	inlineSeq int
+	horizon   int // when > 0: number of asserts visible to obligations added now (loop / post obligations added after translation)
 }
 
 type pending struct {
@@ -53,6 +54,7 @@ type pending struct {
 	nasserts                int // number of asserts visible to this obligation (all, in fact)
 	values                  []string
 	rets                    []string
+	decided                 string // "ok" / "fail": decided syntactically, no solver query
 }
 
 type retSite struct {
@@ -61,6 +63,7 @@ type retSite struct {
 	st    *state
 	block *ssa.BasicBlock
 	pos   token.Pos
+	hz    int
 }
 
 type frame struct {
@@ -83,6 +86,7 @@ type frame struct {
 	in       map[int]*state
 	out      map[int]*state
 	edge     map[[2]int]string
+	outHz    map[int]int // number of asserts when the block's translation finished
 	headSt   map[int]*state
 	entry    *state
 	rets     []retSite
@@ -109,6 +113,18 @@ func (g *Gen) declare(name, sort string) {
 
 func (g *Gen) declareFun(name, sig string) {
 	if g.declared[name] || stubFunSet[name] {
+		return
+	}
+	if _, ok := g.U.oracleFuns[name]; ok {
+		return
+	}
+	if strings.HasPrefix(name, "dynres_") && len(name) > 9 && name[7] >= '0' && name[7] <= '2' {
+		switch name[9:] {
+		case "Val", "Err", "Int", "Bool", "Slice", "Real":
+			return
+		}
+	}
+	if false {
 		return
 	}
 	g.declared[name] = true
@@ -146,8 +162,12 @@ func (g *Gen) addObl(fr *frame, st *state, kind, anchor, detail string, pos toke
 	if fr != nil && fr.inline != "" {
 		anchor = anchor + "@" + fr.inline
 	}
+	h := len(g.asserts)
+	if g.horizon > 0 {
+		h = g.horizon
+	}
 	g.obls = append(g.obls, &pending{name: g.oblName(kind, anchor), kind: kind, detail: detail, pos: g.P.PosString(pos),
-		cond: "(=> " + st.cur + " " + cond + ")"})
+		cond: "(=> " + st.cur + " " + cond + ")", nasserts: h})
 }
 
 // safety obligation; afterwards the path continues only if the check passed.
@@ -230,7 +250,7 @@ func smtReal(exact string) string {
 
 func (g *Gen) newFrame(fn *ssa.Function, parent *frame, clo *Closure) *frame {
 	fr := &frame{g: g, fn: fn, env: map[ssa.Value]*Term{}, parent: parent, clo: clo,
-		in: map[int]*state{}, out: map[int]*state{}, edge: map[[2]int]string{}, headSt: map[int]*state{},
+		in: map[int]*state{}, out: map[int]*state{}, edge: map[[2]int]string{}, headSt: map[int]*state{}, outHz: map[int]int{},
 		iterOf: map[ssa.Value]*mapIter{}}
 	fr.key = g.P.Keys[fn]
 	if fr.key == "" {
@@ -544,6 +564,7 @@ func (fr *frame) run(params []*Term, st0 *state) {
 		}
 		_ = stop
 		fr.out[b.Index] = st
+		fr.outHz[b.Index] = len(g.asserts)
 	}
 	// loop obligations (establishment, preservation, variants)
 	for _, b := range fr.order {
@@ -551,6 +572,7 @@ func (fr *frame) run(params []*Term, st0 *state) {
 			fr.loopObligations(b, ord)
 		}
 	}
+	g.horizon = 0
 }
 
 func (fr *frame) loopID(b *ssa.BasicBlock) string {
@@ -676,6 +698,12 @@ func (fr *frame) loopObligations(b *ssa.BasicBlock, ord int) {
 			continue
 		}
 		isBack := fr.backEdge[[2]int{p.Index, b.Index}]
+		// obligations of this edge see only what was asserted up to the end of the source block:
+		// in particular the entry obligation never sees the assumption of the invariant it justifies
+		g.horizon = fr.outHz[p.Index]
+		if g.horizon == 0 {
+			g.horizon = 1
+		}
 		est := &state{cur: "(and " + ps.cur + " " + fr.edge[[2]int{p.Index, b.Index}] + ")", heap: ps.heap}
 		// case split: when the edge comes from a merge block that only jumps here (for.post), one
 		// obligation per way of reaching that block keeps each query a single control path family
@@ -726,6 +754,8 @@ func (fr *frame) loopObligations(b *ssa.BasicBlock, ord int) {
 		}
 	}
 }
+
+// (horizon is reset by the caller)
 
 // pathSplits enumerates the ways of reaching the end of block p through merge blocks (not loop
 // headers), as selection conditions over the reachability constants; at most three levels deep.
@@ -779,10 +809,23 @@ func (fr *frame) srcAnchor(pos token.Pos, want func(ast.Node) bool, fallback str
 // MakeOblList turns pendings into obligations with queries.
 func (g *Gen) finish(prelude string) []*core.Obl {
 	var out []*core.Obl
-	ctx := prelude + strings.Join(g.decls, "\n") + "\n" + strings.Join(g.asserts, "\n") + "\n"
+	declText := prelude + strings.Join(g.decls, "\n") + "\n"
+	full := declText + strings.Join(g.asserts, "\n") + "\n"
 	for _, p := range g.obls {
+		ctx := full
+		if p.nasserts > 0 && p.nasserts < len(g.asserts) {
+			ctx = declText + strings.Join(g.asserts[:p.nasserts], "\n") + "\n"
+		}
 		o := &core.Obl{Name: p.name, Func: g.key, Kind: p.kind, Tier: core.Proved, Canary: p.canary, Detail: p.detail, Pos: p.pos}
-		if p.canary {
+		if p.decided != "" {
+			o.Solver = "modset-inference"
+			if p.decided == "ok" {
+				o.Status = core.Discharged
+			} else {
+				o.Status = core.Refuted
+				o.Output = p.detail
+			}
+		} else if p.canary {
 			o.Query = ctx + "(assert " + p.cond + ")\n"
 		} else {
 			o.Query = ctx + "(assert (not " + p.cond + "))\n"
